@@ -185,6 +185,49 @@ theorem C01_seqres_complete_chain_unchanged (ch : Chain) (db : Option DbRef) (ci
   unfold seqresWalk
   rw [List.range_eq_range', this]
 
+/-- the same walk when more residues follow the described ones (hetero groups behind the polymer) -/
+theorem seqresWalk_aux_prefix (offset : Int) (names : List (List Char × Nat × Nat)) :
+    ∀ (k : Nat) (st : SeqSt) (suffix : List Residue),
+      st.next = suffix.head? → st.rest = suffix.tail →
+      (suffix.take names.length).map (·.serial) = (List.range' k names.length).map (fun (i : Nat) => (i : Int) + offset) →
+      (((List.range' k names.length).zip names).foldl (fun st (ri : Nat × List Char × Nat × Nat) =>
+        seqStep st ((ri.1 : Int) + offset) ri.2.1 ri.2.2) st).residues = st.residues := by
+  induction names with
+  | nil => intro k st suffix _ _ _; rfl
+  | cons nm names ih =>
+    intro k st suffix hn hr hs
+    simp only [List.length_cons, List.range'_succ, List.zip_cons_cons, List.foldl_cons, List.map_cons] at hs ⊢
+    cases suffix with
+    | nil => simp at hs
+    | cons r suffix =>
+      simp only [List.take_succ_cons, List.map_cons, List.cons.injEq] at hs
+      obtain ⟨hser, hs⟩ := hs
+      simp only [List.head?_cons, List.tail_cons] at hn hr
+      have hstep : (seqStep st ((k : Int) + offset) nm.1 nm.2).residues = st.residues ∧
+          (seqStep st ((k : Int) + offset) nm.1 nm.2).next = suffix.head? ∧
+          (seqStep st ((k : Int) + offset) nm.1 nm.2).rest = suffix.tail := by
+        unfold seqStep
+        simp only [hn, hser, BEq.rfl, if_true, hr]
+        split <;> (try split) <;> simp [hr]
+      rw [ih (k + 1) _ suffix hstep.2.1 hstep.2.2 hs]
+      exact hstep.1
+
+/-- **a chain whose first residues are the ones the SEQRES records describe — numbered consecutively from the SEQRES
+offset, one per name — followed by anything else (hetero groups, waters, in any order) comes out of the SEQRES checks
+with exactly its residues in exactly their order** -/
+theorem C01_seqres_described_prefix_unchanged (ch : Chain) (db : Option DbRef) (cid : Char)
+    (data : List (Nat × Nat × List (List Char))) (lines : List (Nat × List Char))
+    (h : (ch.residues.take (seqresNames data).length).map (·.serial) =
+      (List.range (seqresNames data).length).map (fun (i : Nat) => (i : Int) + seqresOffset db)) :
+    (validateSeqresChain ch db cid data lines).1 = ch := by
+  unfold validateSeqresChain
+  simp only
+  have := seqresWalk_aux_prefix (seqresOffset db) (seqresNames data) 0
+    { residues := ch.residues, rest := ch.residues.tail, next := ch.residues.head? } ch.residues rfl rfl
+    (by rw [← List.range_eq_range']; exact h)
+  unfold seqresWalk
+  rw [List.range_eq_range', this]
+
 /-! ### what is inserted comes from the records -/
 
 /-- the residues the walk works on are the chain's residues plus residues made from SEQRES names of the walk -/
